@@ -20,11 +20,7 @@ fn hello(random: &[u8; 32]) -> [u8; 50] {
     d[8] = 41; // handshake length
     d[9] = 3;
     d[10] = 3;
-    let mut i = 0;
-    while i < 32 {
-        d[11 + i] = random[i];
-        i += 1;
-    }
+    d[11..43].copy_from_slice(random);
     d[43] = 0; // session id length
     d[44] = 0;
     d[45] = 2; // cipher suites length
@@ -39,7 +35,7 @@ fn hello(random: &[u8; 32]) -> [u8; 50] {
 // @desc the extracted client random is exactly bytes 11..43 of the handshake record
 // @encodes tls_listener::TlsListener::extract_client_random
 #[kani::proof]
-#[kani::unwind(40)]
+#[kani::unwind(6)]
 #[kani::stub(alloc::fmt::format, fmt_format_stub)]
 fn c12_extract_random_exact() {
     let random: [u8; 32] = kani::any();
@@ -47,11 +43,9 @@ fn c12_extract_random_exact() {
     match TlsListener::extract_client_random(&d) {
         ClientRandomExtraction::Found(r) => {
             assert!(r.len() == 32, "C12.extract.len: client random must be 32 bytes");
-            let mut i = 0;
-            while i < 32 {
-                assert!(r[i] == random[i], "C12.extract.value: extracted value is not the random field of the ClientHello");
-                i += 1;
-            }
+            // compared as four 64-bit words (no loop: the harness's unwind bound is kept minimal for the parser's sake)
+            let w = |b: &[u8], k: usize| u64::from_be_bytes([b[k], b[k + 1], b[k + 2], b[k + 3], b[k + 4], b[k + 5], b[k + 6], b[k + 7]]);
+            assert!(w(&r, 0) == w(&random, 0) && w(&r, 8) == w(&random, 8) && w(&r, 16) == w(&random, 16) && w(&r, 24) == w(&random, 24), "C12.extract.value: extracted value is not the random field of the ClientHello");
             kani::cover!(true, "C12.cover.extract_found");
             std::mem::forget(r);
         }
